@@ -78,7 +78,8 @@ def _features(rng, N, csv: bool):
         cols["n"] = pl.Series("n", [None if rng.random() < 0.15 else int(rng.integers(-5, 50)) for _ in range(N)],
                               dtype=pl.Int64)
     if rng.random() < 0.8:
-        cols["v"] = pl.Series("v", [None if rng.random() < 0.1 else float(np.round(rng.normal() * 10, 6))
+        cols["v"] = pl.Series("v", [None if rng.random() < 0.1 else (float("nan") if rng.random() < 0.1 else
+                                                                   float(np.round(rng.normal() * 10, 6)))
                                     for _ in range(N)], dtype=pl.Float64)
     if rng.random() < 0.6:
         cols["flag"] = pl.Series("flag", [bool(rng.random() < 0.5) for _ in range(N)], dtype=pl.Boolean)
@@ -91,6 +92,10 @@ def _features(rng, N, csv: bool):
                                         for _ in range(N)], dtype=pl.String)
     if rng.random() < 0.3:
         cols["f32"] = pl.Series("f32", rng.normal(size=N).astype(np.float32))
+    if rng.random() < 0.35:
+        # feature names that differ from the coordinate columns only by case are ordinary features
+        nm_ = ("X", "Zvec", "Y", "XVEC", "Z")[int(rng.integers(0, 5))]
+        cols[nm_] = pl.Series(nm_, [int(rng.integers(0, 9)) for _ in range(N)], dtype=pl.Int64)
     return pl.DataFrame(cols)
 
 
